@@ -19,9 +19,18 @@ package apiutil
 //     identifier (the identifier of a route is api.Path.identifier), so these
 //     attributes are compared as they are sent on a session without ADD-PATH
 //     and, when all generated identifiers are zero, with ADD-PATH as well.
+//   - the binary forms (api.Path.nlri_binary / pattrs_binary) when the wire
+//     decoder itself refuses what a constructor built (an empty COMMUNITIES
+//     attribute, ...): the API accepts nothing then, the refusal is the wire
+//     codec's business (C04) and is only labelled;
 //   - nothing else.  Every other difference is reported; the ones that are
 //     consequences of how the API message is defined are listed in KnownIssues
 //     together with the ones that look like plain bugs, for triage.
+//
+// Development aids: VERIF_C18_SURVEY=1 records every failure class instead of
+// stopping at the first one (printed with -v), VERIF_C18_UNMASK=key1,key2|all
+// switches KnownIssues entries off without editing this file.
+// TestVerifC18Probes runs the minimal reproducer of every known issue.
 
 import (
 	"bytes"
